@@ -30,7 +30,7 @@ func (fv *FuncVerifier) evalBuiltin(name string, call *ast.CallExpr, st *State) 
 			n = ite(eq(x, Term{"0", sortInt}), intT(0), fv.mapCard(x, st))
 			if fv.specMode == 0 && !fv.termMode {
 				n = fv.def("card", n)
-				st.assume(mk(sortBool, "(>= %s 0)", n.S))
+				st.assume(mk(sortBool, "(and (>= %s 0) (<= %s 72057594037927936))", n.S, n.S)) // bounded by the address space
 				dom, _ := fv.mapRead(x, st)
 				// card = 0 <=> empty domain
 				st.assume(mk(sortBool, "(= (= %s 0) (forall ((k!c %s)) (not (select %s k!c))))", n.S, x.Sort.Key.Name, dom.S))
